@@ -17,6 +17,7 @@ STATIC_RULESETS = [
     [("[ST]", ["Ph", "x"]), ("K", ["Ac"])],
     [("K", ["Ac"]), ("E", ["Me"]), ("P(?=K)", ["Ox"])],
     [("(?<=K)", ["Zw"])],
+    [("K", ["Ac"]), ("[KR]", ["Me"])],
 ]
 TERM_RULES = [None, ("", ["Nt"]), ("K", ["Nk"]), ("[PS]", ["Np"])]
 VAR_RULESETS = [
